@@ -101,7 +101,14 @@ def d_unit_and_monitor(ctx, n):
     dunit.eval_d_unit(u, results)
 
 
+def pre_build(ctx):
+    import gen_units
+    gen_units.pre_build(ctx, "translate_driver")
+
+
 def run(ctx):
+    import gen_units
+    gen_units.g_unit(ctx, "translate_driver")
     ctx.assumptions.append("the wall clock is replaced by a harness-controlled clock (the `time` name in search, _stop_run, "
                            "_times_tracker); the theorem holds for every sequence of readings")
     k_unit(ctx)
